@@ -6,7 +6,7 @@
    crashes on arbitrary comment text are decided on the implementation: go/packages, the YAML decoder and ~40 regular
    expressions are dependencies no executable Gallina model can carry in the time available; the regular expressions are
    modelled only on the single-space, ASCII lines the documented syntax produces. *)
-From GS Require Import Base.Str Tools.GenServer Tools.Decimal Scan.Annot Scan.AnnotLemmas.
+From GS Require Import Base.Str Tools.GenServer Tools.Decimal Scan.Annot Scan.AnnotLemmas Gen.GenTaggers Scan.Taggers.
 
 Theorem C17_route_line_faithful : forall kw r, clean_item 32 kw = true -> wf_route r = true -> parse_route kw (route_line kw r) = Some r.
 Proof. exact route_roundtrip. Qed.
@@ -38,3 +38,19 @@ Proof. repeat split; vm_compute; reflexivity. Qed.
    (known finding c17/route-missing[one-letter-operation-id]) *)
 Example C17_refuted_one_letter_id : parse_route (s "swagger:route") (s "swagger:route GET /a x") = None.
 Proof. vm_compute. reflexivity. Qed.
+
+(* ---------- the sectioned comment parser hands every tagger its own lines ---------- *)
+(* lines are filed under the NAME of the first tagger that recognises them; with pairwise distinct names the entry of a
+   tagger's name holds exactly the lines that tagger recognised first and is parsed by that tagger's setter *)
+Theorem C17_tagger_entry_is_own : forall ts lines t,
+  distinct (map t_name ts) = true -> well_indexed ts -> In t ts -> filed ts lines (t_name t) = own_lines ts lines t.
+Proof. exact filed_is_own. Qed.
+Print Assumptions C17_tagger_entry_is_own.
+Theorem C17_tagger_entry_owner : forall ts lines t o,
+  distinct (map t_name ts) = true -> In t ts -> entry_owner ts lines (t_name t) = Some o -> o = t.
+Proof. exact entry_owner_is_self. Qed.
+Print Assumptions C17_tagger_entry_owner.
+(* ... and the tagger lists of the current source (regenerated from codescan/*.go on every run) meet the hypothesis *)
+Theorem C17_tagger_names_distinct : forall g, In g tagger_lists -> distinct (snd g) = true.
+Proof. intros g H. exact (proj1 (forallb_forall _ _) tagger_lists_distinct g H). Qed.
+Print Assumptions C17_tagger_names_distinct.
